@@ -439,6 +439,46 @@ pub fn run_history(h: &[Op17]) -> Result<Vec<u8>, Fail> {
                                 return Err(fail("wrong-object-returned", format!("{:?}: object of type {} reports addr {:#x} count {}, expected {:?} / {}", op, tag, a, c, addrs[*tag as usize], m.count[*tag as usize])));
                             }
                         }
+                        // positional access through the std adaptors (nth, skip, step_by, last, count) sees the same
+                        // sequence as next(): an iterator over "the registered types currently present"
+                        if held_eff.is_none() {
+                            let pos = catch_unwind(AssertUnwindSafe(|| -> Option<String> {
+                                let n = expect.len();
+                                for k in 0..=n + 1 {
+                                    let a = t.iter(&w).nth(k).map(|o| o.tag());
+                                    if a != expect.get(k).copied() {
+                                        return Some(format!("iter().nth({}) yields {:?}, next() x{} yields {:?}", k, a, k + 1, expect.get(k)));
+                                    }
+                                    let b = t.iter_mut(&w).nth(k).map(|o| o.tag());
+                                    if b != expect.get(k).copied() {
+                                        return Some(format!("iter_mut().nth({}) yields {:?}, expected {:?}", k, b, expect.get(k)));
+                                    }
+                                    let sk: Vec<u8> = t.iter(&w).skip(k).map(|o| o.tag()).collect();
+                                    if sk != expect[k.min(n)..] {
+                                        return Some(format!("iter().skip({}) yields {:?}, expected {:?}", k, sk, &expect[k.min(n)..]));
+                                    }
+                                }
+                                let st: Vec<u8> = t.iter(&w).step_by(2).map(|o| o.tag()).collect();
+                                let want: Vec<u8> = expect.iter().copied().step_by(2).collect();
+                                if st != want {
+                                    return Some(format!("iter().step_by(2) yields {:?}, expected {:?}", st, want));
+                                }
+                                let mut it = t.iter(&w);
+                                let two = (it.nth(1).map(|o| o.tag()), it.nth(0).map(|o| o.tag()));
+                                if two != (expect.get(1).copied(), expect.get(2).copied()) {
+                                    return Some(format!("nth(1) then nth(0) on one iterator yield {:?}, expected {:?}", two, (expect.get(1), expect.get(2))));
+                                }
+                                if t.iter(&w).count() != n || t.iter(&w).last().map(|o| o.tag()) != expect.last().copied() {
+                                    return Some("count() / last() disagree with next()".into());
+                                }
+                                None
+                            }));
+                            match pos {
+                                Ok(None) => {}
+                                Ok(Some(e)) => return Err(fail("positional-access-differs-from-next", e)),
+                                Err(p) => return Err(fail("iteration-panicked", format!("positional access panicked: {}", payload_str(&*p)))),
+                            }
+                        }
                     }
                 }
                 // nothing leaked
